@@ -1,7 +1,7 @@
 #!/usr/bin/env python3
 """Writes /verif/MANIFEST.json from the table below (maintenance helper; run by hand after adding a check)."""
 import json
-HOOK_COMMITS = ["7c8ef5d", "00db8be", "c5ee400"]
+HOOK_COMMITS = ["7c8ef5d", "00db8be", "c5ee400", "dd5a18b"]
 E1_NOTE = ("Sequentially consistent interleavings at the granularity of the hooked operations (every protocol atomic, every plain shared "
            "access listed in DESIGN.md §1); Ordering arguments, weak-memory effects, torn plain accesses and spurious weak-CAS failures are not modelled. "
            "Threads, operations per thread and the deviation bound are finite and reported in the evidence. Trusted: rustc, std, crossbeam-channel, "
